@@ -24,6 +24,7 @@ mod c18;
 mod idl;
 mod c13;
 mod c14;
+mod c05;
 
 use cfg::Cfg;
 
@@ -58,6 +59,7 @@ fn main() {
         "c18" => c18::run(&cfg),
         "c13" => c13::run(&cfg),
         "c14" => c14::run(&cfg),
+        "c05" => c05::run(&cfg),
         _ => {
             eprintln!("unknown monitor {name}");
             std::process::exit(2);
